@@ -208,8 +208,8 @@ type Level int
 const (
 	AddrOnly Level = iota - 1 // no mutations: the token is only presented unmodified
 	Core                      // bit flips, truncations, one-byte extensions
-	Extended              // + deletions, insertions, byte substitutions
-	Pairs                 // + every pair of bit flips
+	Extended                  // + deletions, insertions, byte substitutions
+	Pairs                     // + every pair of bit flips
 )
 
 // Mutations calls visit for every mutation of tok in the chosen level. The slice passed to
